@@ -1446,9 +1446,11 @@ MUTANTS += [
     # the database export starts while the handle of the description block is still open
     ("C11", "algos/optimization_problem.py", r"^        self\.database\.to_hdf\(file_path, append=True, hdf_node_path=hdf_node_path\)", "            self.database.to_hdf(file_path, append=True, hdf_node_path=hdf_node_path)"),
     ("C11", "algos/database.py", r"            self, file_path, append, hdf_node_path=hdf_node_path\n        \)\n\n    @classmethod", "            self, file_path, not append, hdf_node_path=hdf_node_path\n        )\n\n    @classmethod"),
-    # the file handle of to_file is never closed (no context manager)
-    ("C11", "algos/_hdf_database.py", r'        with h5py\.File\(file_path, "a" if append else "w"\) as h5file:\n            if hdf_node_path:\n                h5file = h5file\.require_group\(hdf_node_path\)\n            design_vars_grp = h5file\.require_group\("x"\)',
-     '        h5file = h5py.File(file_path, "a" if append else "w")\n        if True:\n            if hdf_node_path:\n                h5file = h5file.require_group(hdf_node_path)\n            design_vars_grp = h5file.require_group("x")'),
+    # a file handle is never closed (no context manager): stated on OptimizationProblem.to_hdf, whose block is followed by the database export.
+    # (The same mutation of HDFDatabase.to_file is caught too - every `post:exported-view:*` / `file-handle-closed` of to_file@c12 fails - but it leaves several hundred
+    #  obligations undecided, i.e. about 15 minutes of solver retries per run: not registered.)
+    ("C11", "algos/optimization_problem.py", r'        with h5py\.File\(file_path, "a" if append else "w"\) as h5file:\n            if hdf_node_path:\n                h5file = h5file\.require_group\(hdf_node_path\)\n\n            if not append',
+     '        h5file = h5py.File(file_path, "a" if append else "w")\n        if True:\n            if hdf_node_path:\n                h5file = h5file.require_group(hdf_node_path)\n\n            if not append'),
     # no full-export fall-back when the node is empty (first backup export)
     ("C11", "algos/_hdf_database.py", r"if append and len\(design_vars_grp\) != 0:", "if append:"),
     ("C11", _BS, r"        self\.save_optimization_history\(self\._opt_hist_backup_path, append=True\)", "        pass"),
@@ -1550,4 +1552,27 @@ MUTANTS += [
     ("C06", "mda/sequential_mda.py", r"        for mda in self.mda_sequence:\n            mda.scaling = scaling", '        for mda in self.mda_sequence:\n            pass'),
     ("C06", "mda/mda_chain.py", r"        self._scaling = scaling\n        for mda in self.inner_mdas:", '        for mda in self.inner_mdas:'),
     ("C06", "mda/newton_raphson.py", r"            residuals=self.get_current_resolved_residual_vector\(\),", '            residuals=self.get_current_resolved_variables_vector(),'),
+]
+
+# ---- C16 DisciplineJacApprox.check_jacobian comparison loop (contracts/c16_discipline.py)
+MUTANTS += [
+    ("C16", "utils/derivatives/derivatives_approx.py", r"                        succeed = succeed and success_loc", "                        succeed = succeed or success_loc"),
+    ("C16", "utils/derivatives/derivatives_approx.py", r"if approx_jac\.shape != computed_jac\.shape:\n                    succeed = False", "if approx_jac.shape != computed_jac.shape:\n                    succeed = True"),
+    ("C16", "utils/derivatives/derivatives_approx.py", r"computed_jac, approx_jac, atol=threshold, rtol=threshold", "computed_jac, approx_jac, atol=threshold, rtol=1.0"),
+    ("C16", "utils/derivatives/derivatives_approx.py", r"        succeed = True\n\n        for output_name, output_jacobian", "        succeed = False\n\n        for output_name, output_jacobian"),
+    ("C16", "utils/derivatives/derivatives_approx.py", r"                    if not success_loc:\n                        err = amax", "                    if success_loc:\n                        err = amax"),
+]
+
+# ---- C19 (round 2b): log-normal parameters, rename of an uncertain variable
+MUTANTS += [
+    ("C19", _UD + "_log_normal_utils.py", r"\(\(sigma / mu_location\) \*\* 2 \+ 1\) \*\* 0\.5", "((sigma / mu) ** 2 + 1) ** 0.5"),
+    ("C19", _UD + "_log_normal_utils.py", r"sigma_l = \(2 \* \(log\(mu_location\) - mu_l\)\) \*\* 0\.5", "sigma_l = (log(mu_location) - mu_l) ** 0.5"),
+    ("C19", _UD + "_log_normal_utils.py", r"    mu_location = mu - location", "    mu_location = mu + location"),
+    ("C19", _UD + "scipy/log_normal.py", r'"scale": exp\(log_mu\)', '"scale": log_mu'),
+    ("C19", _UD + "scipy/log_normal.py", r'\{"s": log_sigma, "loc": location,', '{"s": sigma, "loc": location,'),
+    ("C19", _UD + "openturns/log_normal.py", r"parameters=\(log_mu, log_sigma, location\)", "parameters=(log_sigma, log_mu, location)"),
+    ("C19", _PSP, r"            position = self\.uncertain_variables\.index\(current_name\)\n            self\.uncertain_variables\[position\] = new_name",
+     "            self.uncertain_variables.remove(current_name)\n            self.uncertain_variables.append(new_name)"),
+    ("C19", _PSP, r"            dict_ = self\.distributions\n            dict_\[new_name\] = dict_\.pop\(current_name\)", "            dict_ = self.distributions"),
+    ("C19", _PSP, r"            self\.uncertain_variables\[position\] = new_name", "            self.uncertain_variables[0] = new_name"),
 ]
